@@ -3485,8 +3485,8 @@ class NetCDFRead(IORead):
         """
         if self.read_vars["has_groups"]:
             message = (message0, "is not locatable in the group hierarchy")
-            if ncvar.startswith("REF_NOT_FOUND:_"):
-                ncvar = ncvar.replace("REF_NOT_FOUND:_", "", 1)
+            if ncvar.startswith("REF_NOT_FOUND_"):
+                ncvar = ncvar.replace("REF_NOT_FOUND_", "", 1)
         else:
             message = (message0, "is not in file")
 
@@ -8071,6 +8071,9 @@ class NetCDFRead(IORead):
             # that it is listed in the 'external_variables' global
             # file attribute.
             if not unknown_external and ncvar not in g["variables"]:
+                ncvar, _ = self._missing_variable(
+                    ncvar, "Cell measures variable"
+                )
                 self._add_message(
                     field_ncvar,
                     ncvar,
@@ -8876,14 +8879,17 @@ class NetCDFRead(IORead):
                 if trailing_colon:
                     out = [
                         (
-                            mapping[ncvar[:-1]] + ":"
+                            mapping.get(ncvar[:-1], ncvar[:-1]) + ":"
                             if ncvar.endswith(":")
-                            else mapping[ncvar]
+                            else mapping.get(ncvar, ncvar)
                         )
                         for ncvar in out
                     ]
                 else:
-                    out = [mapping[ncvar] for ncvar in out]
+                    # A name that could not be resolved is not in the
+                    # mapping: keep it, so that it is reported as a
+                    # missing variable
+                    out = [mapping.get(ncvar, ncvar) for ncvar in out]
 
         return out
 
@@ -9019,12 +9025,16 @@ class NetCDFRead(IORead):
         if g["has_groups"]:
             for x in out:
                 for key, value in x.copy().items():
+                    # A name that could not be resolved is not in the
+                    # mapping: keep it, so that it is reported as a
+                    # missing variable
                     if keys_are_variables:
                         del x[key]
-                        key = g["flattener_variables"][key]
+                        key = g["flattener_variables"].get(key, key)
 
                     x[key] = [
-                        g["flattener_variables"][ncvar] for ncvar in value
+                        g["flattener_variables"].get(ncvar, ncvar)
+                        for ncvar in value
                     ]
 
         return out
